@@ -235,6 +235,18 @@ def text_spec_selfcheck(dst, rep):
             bad += 1
             rep.undecided.append(f"text specification self-check: `{src.splitlines()[-1]}` is lowered to `{line}`, which the real interpreter does not parse ({out[:120]}): "
                                  f"the token-view specification of production `{p.sig}` (or the assembler) no longer speaks the interpreter's syntax")
+    # the data lines: one directive of every form through the real assembler, every emitted line through the real data loader
+    dsrc = 'set 2\na: db 5\nb: db -3\nc: db [4]\nd: db [7,2]\ne: db "hi"\nf: dw 300\ng: dw -2\nh: dw [3]\ni: dw [9,2]\nj: dw "ok"'
+    dobs = replay_mod.ask(tool, ["asm " + dsrc.replace("\n", "\\n")])[0]
+    dn = dbad = 0
+    if isinstance(dobs, dict) and dobs.get("ok"):
+        for line in dobs.get("data") or []:
+            o = replay_mod.ask(tool, ["data " + line])[0]
+            dn += 1
+            if not (isinstance(o, dict) and o.get("ok")):
+                dbad += 1
+                rep.undecided.append(f"text specification self-check: the data line `{line}` emitted by the real assembler is refused by the real data loader ({str(o)[:120]})")
+    rep.extra["data_line_selfcheck"] = {"lines_sampled": dn, "lines_the_real_loader_refused": dbad}
     rep.extra["text_spec_selfcheck"] = {"productions_sampled": n, "lines_the_real_interpreter_did_not_parse": bad,
                                         "what": "one source line per emitting production through the real assembler and the real Interpreter::parse (validates the hand-written token-view specification; not an obligation)"}
 
